@@ -127,7 +127,8 @@ def r1_derivations(ctx):
     ctx.form("return self._data(columns, fn_row, stats=True, weight=True, components=components, quantity=quantity)" in s, MT,
              "Matter.data_matter", "matter tables carry the sum row")
     co = ctx.fn(CO, "Composite._data")
-    ctx.form("pt['sum'] = [np.sum(rc[p]) for p in column_names]" in norm(co), CO, "Composite._data", "sum row = column sums")
+    from ..model import cnorm
+    ctx.form("pt['sum'] = [np.sum(rc[_c0]) for _c0 in column_names]" in [cnorm(a) for a in ast.walk(co) if isinstance(a, ast.Assign)], CO, "Composite._data", "sum row = column sums")
     # single element: formula mass = count * atomic mass
     fn = ctx.fn(EL, "Element.__init__")
     asg = [a for a in ast.walk(fn) if isinstance(a, ast.Assign) and norm(a.targets[0]) == "self.composite_mass"]
